@@ -157,6 +157,81 @@ func runC09Disc(o *opts) (*summary, error) {
 			"elapsed_max_ms": int(maxEl / time.Millisecond), "elapsed_min_ms": int(minEl / time.Millisecond), "T_ms": int(timeout / time.Millisecond)}, "quiesce", "overlap-eph")
 		break
 	}
+	// EVERY operation against controllers that say nothing (connected UDP to a bound, silent socket; TCP to a peer that accepts
+	// and stalls; the broadcast path to a silent broadcast address): the call fails after T - not after 2 T because the
+	// operation likes to try once more, or another way - and leaves nothing behind. One path per goroutine, its operations one
+	// after the other.
+	for attempt := 0; attempt < 4; attempt++ {
+		silentU, silentB := listenUDP(), listenUDP()
+		silentT, err := net.ListenTCP("tcp4", &net.TCPAddr{IP: net.IPv4(127, 0, 0, 1), Port: 0}) // (never accepts: the kernel completes the handshake, nobody answers)
+		if err != nil {
+			silentU.Close()
+			silentB.Close()
+			break
+		}
+		tcpAP := netip.AddrPortFrom(netip.AddrFrom4([4]byte{127, 0, 0, 1}), uint16(silentT.Addr().(*net.TCPAddr).Port))
+		const s1, s2, s3 = 405419896, 303986753, 201020304
+		tmo := 90 * time.Millisecond
+		us := uhppote.NewUHPPOTE(bind, types.BroadcastAddr{AddrPort: udpAddrPort(silentB)}, types.ListenAddr{}, tmo, []uhppote.Device{
+			{Name: "u", DeviceID: s1, Address: types.ControllerAddr{AddrPort: udpAddrPort(silentU)}, Protocol: "udp"},
+			{Name: "t", DeviceID: s2, Address: types.ControllerAddr{AddrPort: tcpAP}, Protocol: "tcp"}}, false)
+		us.GetCards(s1) // warm-up
+		g0, f0 := settle()
+		jm := startJitterMonitor()
+		type res struct {
+			maxEl, minEl time.Duration
+			slowest      string
+			succeeded    int
+		}
+		results := map[string]*res{}
+		var mu sync.Mutex
+		var wg sync.WaitGroup
+		for path, serial := range map[string]uint32{"udp": s1, "tcp": s2, "bcast": s3} {
+			r := &res{minEl: time.Hour}
+			results[path] = r
+			gp := &G{r: rand.New(rand.NewSource(o.seed + int64(serial))), inDomain: true}
+			wg.Add(1)
+			go func() {
+				defer wg.Done()
+				for _, op := range replyOps() {
+					cs := gp.call(op, serial)
+					t0 := time.Now()
+					var err error
+					guard(func() { _, err = cs.call(us) })
+					el := time.Since(t0)
+					mu.Lock()
+					if el > r.maxEl {
+						r.maxEl, r.slowest = el, op
+					}
+					if el < r.minEl {
+						r.minEl = el
+					}
+					if err == nil {
+						r.succeeded++
+					}
+					mu.Unlock()
+				}
+			}()
+		}
+		wg.Wait()
+		jm.stop()
+		silentU.Close()
+		silentB.Close()
+		silentT.Close()
+		time.Sleep(2 * tmo)
+		g1, f1 := settle()
+		disturbed := jm.max() > int64(tmo/time.Microsecond)*15/100
+		if disturbed && attempt < 3 {
+			continue
+		}
+		for _, path := range []string{"udp", "tcp", "bcast"} {
+			r := results[path]
+			w.put(M{"op": "Quiesce", "what": "silent-controller-every-operation/" + path + " slowest=" + r.slowest, "disturbed": disturbed, "jitter_us": jm.max(), "calls": len(replyOps()),
+				"succeeded": r.succeeded, "goroutines_before": g0, "goroutines_after": g1, "fds_before": f0, "fds_after": f1 + 3, // (the three silent sockets were open at the first count)
+				"elapsed_max_ms": int(r.maxEl / time.Millisecond), "elapsed_min_ms": int(r.minEl / time.Millisecond), "T_ms": int(tmo / time.Millisecond)}, "quiesce", "silent-ops-"+path)
+		}
+		break
+	}
 	// the event listener asked to listen on port 0 (no listen address configured): refused - and nothing is left behind
 	{
 		uz := uhppote.NewUHPPOTE(bind, types.BroadcastAddr{AddrPort: udpAddrPort(bc)}, types.ListenAddr{}, timeout, nil, false)
